@@ -56,6 +56,8 @@ def get_classes():
 
         def process_response(self, return_value):
             self.log.append(("resp", self.tag))
+            if self.tag.startswith("U") and return_value in ({}, [], ""):
+                return None          # a processor whose result for an empty answer is None ("no data")
             return ["T", self.tag, return_value]
 
         def mk_descr(self):
@@ -341,6 +343,24 @@ def do_request(w, spec_chain, address, root_idx, fn, method, a, label):
     while isinstance(inner, list) and len(inner) == 3 and inner[0] == "T":
         seen.append(inner[1])
         inner = inner[2]
+    # model: the processors innermost first; a 'U' processor turns an empty answer into None
+    if not a.get("raw"):
+        val = "" if body is None else body
+        for t in tags[::-1]:
+            if t.startswith("U") and val in ({}, [], ""):
+                val = None
+                w.classes.add("processor_result_is_None")
+            else:
+                val = ["T", t, val]
+        exp_seen, x = [], val
+        while isinstance(x, list) and len(x) == 3 and x[0] == "T":
+            exp_seen.append(x[1])
+            x = x[2]
+        if seen != exp_seen:
+            w.f.append(("return_value_not_processed_in_reverse_order", f"{label}: wrappers {seen}, expected {exp_seen} (chain {tags})"))
+        elif ret != val:
+            w.f.append(("wrong_return_value", f"{label}: {ret!r} expected {val!r}"))
+        return
     if seen != tags:
         w.f.append(("return_value_not_processed_in_reverse_order", f"{label}: wrappers {seen}, expected {tags}"))
     if a.get("raw"):
@@ -497,7 +517,7 @@ def evaluate(case):
 def st_adapter():
     return st.one_of(
         st.sampled_from(PREFIXES).map(lambda p: {"k": "prefix", "p": p}),
-        st.sampled_from(["T1", "T2", "T3", "T4"]).map(lambda t: {"k": "tag", "tag": t}))
+        st.sampled_from(["T1", "T2", "T3", "T4", "U5"]).map(lambda t: {"k": "tag", "tag": t}))
 
 
 def st_layer():
